@@ -91,3 +91,40 @@ pub proof fn lemma_conv_facts(sd: bool, wd: int, x: int, fs: int, fd: int)
         if xx < p2(wd - 1) { lemma_wrap_id(true, wd, xx); } else { lemma_wrap_unique(true, wd, xx, xx - p2(wd), -1); }
     }
 }
+
+// the same policy facts stated directly on the exact destination-grid value xx (used by the float glue, C05)
+pub proof fn lemma_xx_facts(sd: bool, wd: int, xx: int)
+    requires 8 <= wd <= 128
+    ensures (xx >= 0 ==> wrap(sd, wd, xx % p2(128)) == wrap(sd, wd, xx)),
+            wrap(sd, wd, wrap(true, 128, xx)) == wrap(sd, wd, xx),
+            (xx >= 0 ==> (fits(sd, wd, xx) <==> (xx < p2(wd) && !(sd && wrap(true, wd, xx) < 0)))),
+            (xx < 0 ==> (fits(sd, wd, xx) <==> (sd && xx >= -p2(wd - 1)))),
+            (xx >= p2(wd) ==> xx > max_of(sd, wd)), (xx < -p2(wd - 1) ==> xx < min_of(sd, wd)),
+            (sd && xx >= 0 && xx < p2(wd) && wrap(true, wd, xx) < 0 ==> xx > max_of(sd, wd)),
+            (!sd && xx < 0 ==> xx < min_of(sd, wd))
+{
+    lemma_p2_pos(wd); lemma_p2_pos(wd - 1); lemma_p2_step(wd); lemma_p2_pos(128);
+    lemma_p2_add(wd, 128 - wd); lemma_p2_pos(128 - wd);
+    let e = p2(128 - wd);
+    if xx >= 0 {
+        lemma_fundamental_div_mod(xx, p2(128));
+        let k = xx / p2(128);
+        assert(xx % p2(128) == xx + (-(k * e)) * p2(wd)) by (nonlinear_arith) requires xx == p2(128) * k + xx % p2(128), p2(128) == p2(wd) * e;
+        lemma_wrap_shift(sd, wd, xx, -(k * e));
+    }
+    let k2 = lemma_wrap_diff(true, 128, xx);
+    assert(wrap(true, 128, xx) == xx + (-(k2 * e)) * p2(wd)) by (nonlinear_arith) requires wrap(true, 128, xx) == xx - k2 * p2(128), p2(128) == p2(wd) * e;
+    lemma_wrap_shift(sd, wd, xx, -(k2 * e));
+    if 0 <= xx < p2(wd) {
+        if xx < p2(wd - 1) { lemma_wrap_id(true, wd, xx); } else { lemma_wrap_unique(true, wd, xx, xx - p2(wd), -1); }
+    }
+}
+pub open spec fn xx_facts(sd: bool, wd: int, xx: int) -> bool {
+    &&& (xx >= 0 ==> wrap(sd, wd, xx % p2(128)) == wrap(sd, wd, xx))
+    &&& wrap(sd, wd, wrap(true, 128, xx)) == wrap(sd, wd, xx)
+    &&& (xx >= 0 ==> (fits(sd, wd, xx) <==> (xx < p2(wd) && !(sd && wrap(true, wd, xx) < 0))))
+    &&& (xx < 0 ==> (fits(sd, wd, xx) <==> (sd && xx >= -p2(wd - 1))))
+    &&& (xx >= p2(wd) ==> xx > max_of(sd, wd)) &&& (xx < -p2(wd - 1) ==> xx < min_of(sd, wd))
+    &&& (sd && xx >= 0 && xx < p2(wd) && wrap(true, wd, xx) < 0 ==> xx > max_of(sd, wd))
+    &&& (!sd && xx < 0 ==> xx < min_of(sd, wd))
+}
